@@ -6,7 +6,7 @@ ID = "C12"
 LEVEL = "exploration"
 TECHNIQUE = "metamorphic pairs through the public API (permutation, rotation/reflection, translation, scaling, preceding-call histories) compared on embedding distance matrices, with a tolerance derived from a measured per-case amplification (perturbed twin run); single-threaded, under ASan/UBSan"
 LEVEL_TEXT = ("Every deterministic method is run on a data set and on its transformed twin; the pairwise distances of the two embeddings must agree (rows re-matched for permutations, "
-              "scaled by c for MDS/Isomap/linear KPCA/PCA). The history leg repeats a call after 1-6 unrelated embed calls (other methods, sizes, invalid requests that throw) in the same process.")
+              "scaled by c for MDS/Isomap/linear KPCA/PCA). The history leg makes a call after related calls (same method and size on other data, same data with other parameters), repeats it after 1-6 unrelated embed calls (other methods, sizes, invalid requests that throw) in the same process, and compares both with the same call made in a process of its own (the driver re-executes itself on a one-case file).")
 LEVEL_NOTE = "No reference is needed; the tolerance is max(1e-9, 1000 * amplification * rounding size of the transformation) where amplification is measured by a 1e-9 relative perturbation; cases above 1e-3 are inconclusive."
 ASSUMPTIONS = ["tie-free generic data so that neighbour sets are unique", "dense eigensolver; methods that draw random numbers are excluded as the statement does"]
 META = Target("meta", "asan", ["d_meta.cpp", "embed_api.cpp"])
@@ -65,7 +65,8 @@ def stages(tier, seed, bins):
 def coverage(recs, tier):
     tags = {}
     sig = set()
-    hist = threw = 0
+    hist = threw = fresh = 0
+    worst_fresh = 0
     worst = 0
     inconc = 0
     for st, c, r in recs:
@@ -74,6 +75,9 @@ def coverage(recs, tier):
         num = r.get("num", {})
         hist += int(num.get("history_calls", 0))
         threw += int(num.get("history_calls_that_threw", 0))
+        fresh += int(num.get("fresh_process_references", 0))
+        if isinstance(num.get("dev_vs_fresh_process"), (int, float)):
+            worst_fresh = max(worst_fresh, num["dev_vs_fresh_process"])
         if isinstance(num.get("dev"), (int, float)) and r.get("nontrivial"):
             worst = max(worst, num["dev"])
         if r.get("inconclusive"):
@@ -84,6 +88,7 @@ def coverage(recs, tier):
         rule="case = (method, transformation, data set): base run, perturbed twin (conditioning), transformed/repeated run; non-trivial = both embeddings finite and the pair comparable "
              "(tolerance <= 1e-3); distinct = distinct (method, transformation, data seed)",
         distinct_nontrivial=len(sig), pairs_by_method_and_transformation=tags, preceding_calls_in_history_leg=hist, of_which_threw=threw,
+        fresh_process_references_compared=fresh, worst_deviation_from_fresh_process=worst_fresh,
         worst_relative_deviation_observed=worst, inconclusive_cases=inconc,
         samples=[" ".join("%s=%s" % kv for kv in c.items()) for st, c, r in recs[::max(1, len(recs) // 6)][:6]],
     )
